@@ -26,8 +26,8 @@ import (
 
 	"github.com/anishathalye/porcupine"
 	"github.com/btcsuite/btcd/btcutil"
-	"github.com/btcsuite/btcd/btcutil/psbt"
 	"github.com/btcsuite/btcd/btcutil/hdkeychain"
+	"github.com/btcsuite/btcd/btcutil/psbt"
 	"github.com/btcsuite/btcd/txscript"
 	"github.com/btcsuite/btcd/wire"
 	"github.com/btcsuite/btcwallet/waddrmgr"
@@ -257,7 +257,7 @@ func runWallet(r *evid.Run, dir string, cs int64) {
 	if G*K > 180 {
 		K = 180 / G
 	}
-	var clock int64
+	var clock, renames int64
 	var mu sync.Mutex
 	var ops []porcupine.Operation
 	var events []string
@@ -375,8 +375,26 @@ func runWallet(r *evid.Run, dir string, cs int64) {
 			}
 		}(g)
 	}
+	// a non-issuing writer of the SAME account rows runs alongside: account
+	// renames rewrite the whole row, counters included, without taking part in
+	// the issuance protocol
+	wg.Add(1)
+	go func() {
+		defer wg.Done()
+		for i := 0; i < 2*K; i++ {
+			sc, acct := waddrmgr.KeyScopeBIP0084, uint32(0)
+			if haveImp && i%2 == 1 {
+				sc, acct = impScope, impAcct
+			}
+			if err := f.W.RenameAccount(sc, acct, fmt.Sprintf("renamed-%d-%d", cs&0xffff, i)); err == nil {
+				atomic.AddInt64(&renames, 1)
+			}
+			time.Sleep(time.Duration(50+i*13%200) * time.Microsecond)
+		}
+	}()
 	wg.Wait()
 	f.DB.PreCommit = nil
+	r.Hit("concurrent-account-renames", int(atomic.LoadInt64(&renames)))
 	fail := func(key, what string) {
 		ev := events
 		if len(ev) > 260 {
@@ -599,7 +617,7 @@ func raceReports() (int, string) {
 
 func main() {
 	r := evid.New(P, "exploration")
-	r.Rule("complete funded wallets (unlocked for the whole run); 8..32 goroutines x 4..8 calls (<= 180 per history) mixing NewAddress, NewChangeAddress, CurrentAddress on two key scopes of the default account and NewAddress / NewChangeAddress on an imported extended-public-key account (which issued 0..5 receiving and 0..5 change addresses beforehand; two of three wallets are stopped and reopened before the round, so that its counters come from the database), CreateSimpleTx that needs change (real and dry run) and FundPsbt with and without caller-supplied inputs, while the database wrapper delays every commit callback by 0 / <=300 us / <=2 ms; each returned address is mapped to (branch, index) by the independent derivation oracle; porcupine checks each branch's history against a sequential next-index counter (CurrentAddress may return the last unused index); afterwards: no index twice, key counts not behind the issued indices, a manager opened on a copy of the database reports the same counts. All under the Go race detector; a report whose two stacks both come from issuing calls is a violation. Non-trivial = history with > 20 recorded issuing calls; distinct = distinct (seed, goroutines, calls, delay); distinct interleavings = distinct recorded histories.")
+	r.Rule("complete funded wallets (unlocked for the whole run); 8..32 goroutines x 4..8 calls (<= 180 per history) mixing NewAddress, NewChangeAddress, CurrentAddress on two key scopes of the default account and NewAddress / NewChangeAddress on an imported extended-public-key account (which issued 0..5 receiving and 0..5 change addresses beforehand; a further goroutine renames both accounts all along, rewriting their rows; two of three wallets are stopped and reopened before the round, so that its counters come from the database), CreateSimpleTx that needs change (real and dry run) and FundPsbt with and without caller-supplied inputs, while the database wrapper delays every commit callback by 0 / <=300 us / <=2 ms; each returned address is mapped to (branch, index) by the independent derivation oracle; porcupine checks each branch's history against a sequential next-index counter (CurrentAddress may return the last unused index); afterwards: no index twice, key counts not behind the issued indices, a manager opened on a copy of the database reports the same counts. All under the Go race detector; a report whose two stacks both come from issuing calls is a violation. Non-trivial = history with > 20 recorded issuing calls; distinct = distinct (seed, goroutines, calls, delay); distinct interleavings = distinct recorded histories.")
 	r.Trusted("porcupine v1.3.0 linearizability checker", "independent BIP32 oracle for address -> index", "Go race detector")
 	r.Assume("schedules are sampled, widened at the commit-callback window only", "calls that return an error are not part of the history (they must not have consumed an index: covered by the gap/linearizability check of later calls)")
 	dir, _ := os.MkdirTemp("", "c09")
